@@ -408,3 +408,68 @@ func TestVF_C08_IntraProxyReceiver(t *testing.T) {
 		run(rt, c)
 	})
 }
+
+// ---- several instances: after every stream has ended nothing remains registered or running on any instance
+
+func TestVF_C08_MultiNode(t *testing.T) {
+	const part = "multinode"
+	if rp := vfshared.ReplayPart(); rp != "" && rp != part {
+		t.Skip()
+	}
+	st := vfshared.NewStats("C08", part, "routing world on 2-3 proxy instances (real intra-proxy managers connected by real gRPC in the bubble): generated traffic with stream breaks, reconnects and target streams moving between instances; then every cluster-facing stream ends and the instances exchange their (now empty) shard sets and reconcile; oracle: no panic; on every instance no shard, channel, cancel function, active receiver, intra-proxy sender or receiver remains registered and no goroutine is left; non-trivial = a stream broke or moved while tasks had been forwarded between instances")
+	defer st.Flush()
+	run := func(tt interface{ Fatalf(string, ...any) }, c rwCase) {
+		res := rwRun(t, c, rwOptions{})
+		msg := ""
+		switch {
+		case len(res.Panics) > 0:
+			msg = "proxy goroutine panicked: " + res.Panics[0]
+		case len(res.Leftovers) > 0:
+			msg = "after all streams ended: " + res.Leftovers[0]
+		case res.Leak != "":
+			msg = "after all streams ended a worker is still running: " + res.Leak
+		}
+		if msg != "" {
+			p := vfshared.WriteReplay("C08", part, c)
+			st.Violation(p, msg)
+			tt.Fatalf("C08 violated: %s (replay %s)", vfTrunc(msg, 1500), p)
+		}
+		faults := 0
+		for _, o := range c.Ops {
+			if o.K == "break" || o.K == "move" {
+				faults++
+			}
+		}
+		nt := faults > 0 && res.Classes["task_forwarded_between_instances"] > 0
+		st.Case(rwFingerprint(c), nt, rwSortedKeys(res.Classes)...)
+		if nt && st.WantSample() {
+			st.Sample(map[string]any{"ns": c.NS, "nt": c.NT, "nodes": c.Nodes, "src_node": c.SrcNode, "tgt_node": c.TgtNode, "ops": len(c.Ops)})
+		}
+	}
+	if f := vfshared.ReplayFile(); f != "" {
+		var c rwCase
+		if _, err := vfshared.LoadReplay(f, &c); err != nil {
+			t.Fatal(err)
+		}
+		run(t, c)
+		return
+	}
+	rapid.Check(t, func(rt *rapid.T) {
+		c := rwGenCase(rt, true)
+		if c.Nodes < 2 {
+			c.Nodes = rapid.SampledFrom([]int{2, 2, 3}).Draw(rt, "nodes2")
+			c.SrcNode, c.TgtNode = nil, nil
+			for i := 0; i < c.NS; i++ {
+				c.SrcNode = append(c.SrcNode, rapid.IntRange(0, c.Nodes-1).Draw(rt, "srcNode2"))
+			}
+			for j := 0; j < c.NT; j++ {
+				c.TgtNode = append(c.TgtNode, rapid.IntRange(0, c.Nodes-1).Draw(rt, "tgtNode2"))
+			}
+			// histories drawn for one instance may hold window breaks: not with several instances (see rwGenFault)
+			for i := range c.Ops {
+				c.Ops[i].Window = false
+			}
+		}
+		run(rt, c)
+	})
+}
